@@ -478,6 +478,8 @@ static int sub_what;
 static void sub_event(const char *a)
 {
 	int i;
+	/* a loop that never comes to rest is a fault of its own: end the behaviour (recorded as a crash of "loop") */
+	if (nsub > 4000) abort();
 	fprintf(drv_out, "{\"b\":%ld,\"i\":%ld,\"sub\":%d,\"a\":\"%s\",\"arg\":{", drv_beh, drv_stepno, nsub++, a);
 	drv_first = 1;
 	if (!strcmp(a, "wait")) {
